@@ -18,7 +18,7 @@ def gen_frame(rng, task):
     nq = rng.randint(2, 6)
     latent = [np.array([rng.randint(-20, 20) for _ in range(n)], dtype=float) for _ in range(2)]
     for i in range(nq):
-        kind = rng.choice(["signal", "signal", "cluster", "cluster", "dup", "noise", "ties", "nan", "chain", "chain", "nan_mnar"])
+        kind = rng.choice(["signal", "signal", "cluster", "cluster", "dup", "noise", "ties", "nan", "chain", "chain", "nan_mnar", "nan_mnar"])
         base = latent[i % 2]
         noise = np.array([rng.randint(-4, 4) for _ in range(n)], dtype=float)
         if kind == "signal":
@@ -296,3 +296,31 @@ def lean_pair_assoc(drv, kind, a, b):
     keep = [i for i in range(len(a)) if isinstance(a[i], (int, float)) and isinstance(b[i], (int, float)) and math.isfinite(a[i]) and math.isfinite(b[i])]
     r = drv.call({"op": "measure.exact", "kind": kind, "xs": [_rat(a[i]) for i in keep], "ys": [_rat(b[i]) for i in keep]})
     return 0.0 if r["r2"] is None else math.sqrt(float(F(r["r2"])))
+
+
+def gen_chain(rng, task, filter_kind):
+    """three quantitative features in a correlation chain, ranked A > B > C by their association with the target: A and B are
+    associated above the returned threshold, B and C too, A and C are not.  B must be left out because of A, and C must then
+    be returned (nothing better than C that is *kept* is too associated with it)."""
+    for _ in range(20):
+        n = rng.choice([90, 150, 240])
+        if task == "regression":
+            y = np.array([rng.randint(0, 40) / 2 for _ in range(n)])
+            sig = (y - y.mean()) / 2
+        else:
+            k = rng.choice([2, 3])
+            y = np.array([rng.randrange(k) for _ in range(n)])
+            sig = y * 12.0
+        a = sig + np.array([rng.randint(-3, 3) for _ in range(n)], dtype=float)
+        c = np.array([rng.randint(-20, 20) for _ in range(n)], dtype=float) + (sig / 6 if task != "regression" else sig / 4)
+        b = a - a.mean() + c
+        cols = {"q0": list(a), "q1": list(b), "q2": list(c)}
+        ab, bc, ac = (pair_assoc(filter_kind, cols[u], cols[v]) for u, v in (("q0", "q1"), ("q1", "q2"), ("q0", "q2")))
+        if ac + 0.1 < min(ab, bc):
+            th = round((ac + min(ab, bc)) / 2, 2)
+            X = pd.DataFrame(cols)
+            if rng.random() < 0.5:
+                X["q3"] = [float(rng.randint(-9, 9)) for _ in range(n)]
+            ys = pd.Series(y if task == "regression" else y.astype(int), index=X.index, name="target")
+            return X, ys, list(X.columns), [], th
+    return None
